@@ -868,7 +868,7 @@ func (e *env) cfgFor(tier string) {
 	if tier == "thorough" {
 		e.cfg.maxDFS, e.cfg.maxRand = 720, 200
 	} else {
-		e.cfg.maxDFS, e.cfg.maxRand = 24, 16
+		e.cfg.maxDFS, e.cfg.maxRand = 24, 8
 	}
 }
 
@@ -1098,7 +1098,6 @@ func main() {
 	}
 	e.cfg.settle = time.Duration(common.ArgInt(a, "settle", 1500)) * time.Microsecond
 	e.cfg.verbose = a["v"] == "1"
-	extFwd = a["extfwd"] == "1"
 	knobs := fedlab.ParseKnobs(a["knobs"])
 	switch os.Args[1] {
 	case "gen":
